@@ -1195,6 +1195,25 @@ def d53():
                 )
 """)])
 
+@fix('D54', "fix: the fields of a structure are not variables of the module\n\nv_StructureDefinition typed each field by visiting it as a variable declaration in\nthe scope of the module, so every field name became a global variable of the type\nscope: two structures with a field of the same name (or a field named like a\nglobal) stopped the compiler with an AssertionError in Scope.RegisterVariable, and\na function could read a field name as if it were a variable. Type the fields in a\nscope of their own.")
+def d54():
+    patch('nsl/passes/ComputeTypes.py', [(
+"""        scope = ctx[-1]
+        fields = OrderedDict()
+        for field in decl.GetFields():
+            self.v_Visit(field, ctx)
+            fields[field.GetName()] = field.GetType()
+""",
+"""        scope = ctx[-1]
+        fields = OrderedDict()
+        # The fields live in the structure, not in the enclosing scope
+        ctx.append(types.Scope(scope))
+        for field in decl.GetFields():
+            self.v_Visit(field, ctx)
+            fields[field.GetName()] = field.GetType()
+        ctx.pop()
+""")])
+
 if __name__ == '__main__':
     name = sys.argv[1]
     msg, f = FIXES[name]
